@@ -149,6 +149,20 @@ fn run_one(input: &Input, want_sample: bool) -> Value {
     } else {
         cuc.init_tracing()
     };
+    // Builder calls may follow the initialisation of tracing (the collector lives in the runner the
+    // facade wraps, and the type-changing builder methods rebuild that runner): in half of the
+    // cases the classifier and the hooks are set once more - to the same functions - afterwards.
+    let cuc = if vlab::tape::hash_str(&format!("{:?}", &input.a[..input.a.len().min(7)])) % 2 == 0 {
+        // (without a custom classifier: the documented default, `@serial` on any of the three levels)
+        fn tagged_serial(f: &cucumber::gherkin::Feature, r: Option<&cucumber::gherkin::Rule>, s: &cucumber::gherkin::Scenario) -> cucumber::ScenarioType {
+            if s.tags.iter().chain(r.iter().flat_map(|r| &r.tags)).chain(&f.tags).any(|t| t == "serial") { cucumber::ScenarioType::Serial } else { cucumber::ScenarioType::Concurrent }
+        }
+        let cuc = cuc.which_scenario(if case.custom_classifier { driver::custom_which as runner::basic::WhichScenarioFn } else { tagged_serial as runner::basic::WhichScenarioFn });
+        let cuc = if case.before { cuc.before(driver::before_hook as runner::basic::BeforeHookFn<W>) } else { cuc };
+        if case.after { cuc.after(driver::after_hook as runner::basic::AfterHookFn<W>) } else { cuc }
+    } else {
+        cuc
+    };
     // Every other case keeps a clone of the configured executor alive while the original runs (a
     // base configuration shared by several runs): the tracing collector travels with the copy that
     // is run, whoever else still holds a handle to it.
